@@ -19,6 +19,8 @@ typedef unsigned __int128 u128;
 
 namespace {
 
+std::size_t gGridLens = 4;   // parent lengths of the construction grid: 4 at quick, 7 at thorough
+
 std::vector<uint8_t> pattern(std::size_t n, uint8_t base = 0x10) { std::vector<uint8_t> v(n); for (std::size_t i = 0; i < n; ++i) v[i] = uint8_t(base + i); return v; }
 
 // ------------------------------------------------------------------------------------------------
@@ -129,9 +131,9 @@ struct Grid {
 
 void gridCase(std::size_t which, Ctx& ctx)
 {
-	static const std::size_t lens[] = { 0, 1, 4, 6 };
-	std::size_t n = lens[which % 4];
-	int backend = int(which / 4);
+	static const std::size_t lens[] = { 0, 1, 4, 6, 2, 3, 8 };
+	std::size_t n = lens[which % gGridLens];
+	int backend = int(which / gGridLens);
 	auto bytes = pattern(n);
 	if (backend == 0) {
 		Grid g{ ctx, "MemoryReader" };
@@ -529,7 +531,7 @@ void equivCase(std::size_t which, Ctx& ctx)
 	mc::removeTree(dir);
 }
 
-const std::size_t kGrid = 12, kJoint = 4, kEquiv = 4;
+std::size_t kGrid = 12; const std::size_t kJoint = 4, kEquiv = 4;
 
 void runCase(std::size_t i, Ctx& ctx)
 {
@@ -544,6 +546,7 @@ int main(int argc, char** argv)
 {
 	mc::CheckDef def;
 	def.id = "C13";
+	def.init = [](Ctx& c) { gGridLens = c.thorough ? 7 : 4; kGrid = 3 * gGridLens; };
 	def.ncases = [](Ctx&) { return kGrid + kJoint + kEquiv; };
 	def.run = runCase;
 	def.describe = [](std::size_t i) { return i < kGrid ? "construction grid " + std::to_string(i) : i < kGrid + kJoint ? "interleaving " + std::to_string(i - kGrid) : "equivalence " + std::to_string(i - kGrid - kJoint); };
